@@ -152,6 +152,18 @@ fn projects() -> Vec<Project> {
         dup_ids: vec![],
     });
     v.push(Project {
+        name: "twenty-imports-two-share-a-simple-name",
+        files: vec![
+            ("obs", Box::leak(format!(
+                "package o;\n{}import aa.Foo; import bb.Foo; import cc.dd.Foo;\ninterface I {{ void f(in Foo x); Foo g(); List<Foo> h(); }}",
+                (0..20).map(|k| format!("import pad.P{k};\n")).collect::<String>()
+            ).into_boxed_str())),
+            ("aa", "package aa; parcelable Foo { }"),
+            ("bb", "package bb; enum Foo { A }"),
+        ],
+        dup_ids: vec![],
+    });
+    v.push(Project {
         name: "forward-declaration-in-another-file",
         files: vec![
             ("a", "package a; parcelable Payload; parcelable Extra; interface A { void f(in Payload p); }"),
@@ -728,7 +740,7 @@ pub fn run(tier: Tier, seed: u64) -> i32 {
     let multi = stats.states.load(std::sync::atomic::Ordering::Relaxed) > 1000;
     finish(
         &stats,
-        "22 projects built to collide (several diagnostics on one line, several unresolved / unused imports and forward declarations, two imports matching one name, a declaration conflicting with several imports, one key registered twice, files without a tree, recovered syntax errors after validation diagnostics) x insertion orders (all permutations up to the stated cap) x plain / replace histories x base keys of new threads x repeated validate() calls; hash seeds are owned through the getrandom shim and the sweep continues until every hash container of <= 4 elements has been observed (hook H3) in all its iteration orders at every site; all outputs of one project must be equal and every file's diagnostics ascending in (line, column); states = validate() calls compared; distinct_nontrivial = distinct iteration-order tuples observed",
+        "23 projects built to collide (several diagnostics on one line, several unresolved / unused imports and forward declarations, two imports matching one name, a declaration conflicting with several imports, one key registered twice, files without a tree, recovered syntax errors after validation diagnostics) x insertion orders (all permutations up to the stated cap) x plain / replace histories x base keys of new threads x repeated validate() calls; hash seeds are owned through the getrandom shim and the sweep continues until every hash container of <= 4 elements has been observed (hook H3) in all its iteration orders at every site; all outputs of one project must be equal and every file's diagnostics ascending in (line, column); states = validate() calls compared; distinct_nontrivial = distinct iteration-order tuples observed",
         &[
             "std's RandomState takes its keys from getrandom(2) once per thread and increments them per instance; the LD_PRELOAD shim makes them a function of the harness-chosen base key (self-tested at start-up)",
             "hook H3 only observes the order of the container the library is about to iterate",
